@@ -205,7 +205,15 @@ fn run_case(s: &Subject, rel: &'static str, twice: bool, source: &assets::Asset)
     let fam = ifmt::family(&source.format).unwrap_or("?");
     let tag = format!("{fam}|{}|{rel}{}", s.state, if twice { "|twice" } else { "" });
     let sample = json!({"asset": s.asset, "format": s.format, "state": s.state, "relationship": rel, "twice": twice, "note": s.note});
-    let sig = |defect: &str| format!("{fam}|{}|{rel}|{defect}", s.state);
+    // cause-class signature: byte-level defects keep the container family, everything else is
+    // (ingredient state, defect) — the relationship / format are swept, not causes
+    let sig = |defect: &str| {
+        if defect.starts_with("manifest-") {
+            format!("{fam}|{}|{defect}", s.state)
+        } else {
+            format!("{}|{defect}", s.state)
+        }
+    };
     let fail = |sigd: &str, what: String, counts: BTreeMap<String, u64>, unjudged: Vec<String>| Res { class: format!("{tag}|{sigd}"), violation: Some((sig(sigd), what)), unjudged, counts, sample: sample.clone() };
 
     // reference: stand-alone read of the ingredient under the same settings
@@ -326,7 +334,7 @@ fn run_case(s: &Subject, rel: &'static str, twice: bool, source: &assets::Asset)
                 return fail("manifest-count", format!("ingredient store has {} manifests, output has {} (expected +1)", ims.len(), out_m.len()), counts, unjudged);
             }
         }
-        None => unjudged.push("independent parser could not locate/parse the ingredient's store; (a) not judged".into()),
+        None => unjudged.push(format!("(a) not judged: independent parser could not locate/parse the ingredient's store [{fam}]")),
     }
     // (b) recorded validation == stand-alone validation
     for i in &mine {
@@ -362,7 +370,18 @@ fn main() {
         "states whose stand-alone read returns an error (remote-only offline) are not judged for (a)/(b)".into(),
         "validation equality = failure-code multiset of the active manifest + presence of signingCredential.trusted".into(),
     ];
-    let mut assets_v = assets::tiny_assets();
+    // every tiny writable format the harness can synthesise (jpeg png gif wav webp avi tiff svg mp3 flac jxl
+    // mp4 heic) + small fixtures; the bare manifest-store asset is not a media format
+    let mut assets_v: Vec<assets::Asset> = vmon::embedkit::extended_tiny_assets().into_iter().filter(|a| a.format != "c2pa").collect();
+    if run.quick() {
+        // one or two layouts per format are enough for the quick tier
+        let mut seen: BTreeMap<&'static str, usize> = BTreeMap::new();
+        assets_v.retain(|a| {
+            let n = seen.entry(a.format).or_insert(0);
+            *n += 1;
+            *n <= 2
+        });
+    }
     assets_v.extend(assets::fixture_assets(run.tier.pick(70_000, 400_000)));
     let mut notes = Vec::new();
     let mut subjects: Vec<(Subject, usize)> = Vec::new();
